@@ -29,6 +29,7 @@ REQUIRED = {
         'collections-compared-under-permutation': 100,
         'collections-compared-under-axis-shift': 100,
         'collections-with-2+-components': 40,
+        'collections-with-adjacent-components (levels form one gap-free run)': 10,
         'main-body-identified': 100,
         'head-mappings-compared-under-relabelling': 100,
         'recession:main-body-checked': 10,
@@ -46,6 +47,7 @@ def gen_collection(rng):
     step = rng.choice([1.0, 0.5, 0.1, 0.3, 2.5])
     ncomp = rng.choice([1, 1, 2, 3, 4])
     series = []
+    comp_of = []
     base = rng.uniform(-20, 20)
     for cidx in range(ncomp):
         n = rng.randint(2, 8) if cidx == 0 else rng.randint(1, 4)
@@ -61,7 +63,24 @@ def gen_collection(rng):
             dt = rng.choice([1800.0, 3600.0, 1200.0])
             t0 = rng.choice([0.0, 1.6e9, rng.uniform(0, 1e6)])
             series.append((t0 + np.arange(L + 1) * dt, H))
+            comp_of.append(cidx)
         base -= 200 * step
+    if ncomp > 1 and rng.random() < 0.5:
+        # move the groups next to each other: their grid levels then form one
+        # gap-free run although no level is shared between two groups
+        groups = {}
+        for (t, H), c in zip(series, comp_of):
+            groups.setdefault(c, []).append((t, H))
+        placed = list(groups[0])
+        for c in sorted(groups)[1:]:
+            lv_placed = set().union(*[set(oracle_curves.own_crossings(list(map(float, t)), list(map(float, H)), step)) for t, H in placed])
+            lv_new = set().union(*[set(oracle_curves.own_crossings(list(map(float, t)), list(map(float, H)), step)) for t, H in groups[c]])
+            if not lv_placed or not lv_new:
+                placed.extend(groups[c])
+                continue
+            k = (min(lv_placed) - 1) - max(lv_new)
+            placed.extend((t, H + k * step) for t, H in groups[c])
+        series = placed
     rng.shuffle(series)
     return step, series
 
@@ -115,6 +134,9 @@ def check_collection(ctx, rng, step, series, case=None):
     tie = len(comps) > 1 and comps[0][0] == comps[1][0]
     if len(comps) > 1:
         rec.hit('collections-with-2+-components')
+        all_levels = sorted(set().union(*[set(oracle_curves.own_crossings(list(map(float, t - t.min())), list(map(float, H)), step)) for t, H in series]))
+        if all_levels == list(range(all_levels[0], all_levels[-1] + 1)):
+            rec.hit('collections-with-adjacent-components (levels form one gap-free run)')
     candidates = [set(m) for nl, m in comps if nl == comps[0][0]]
     call = lambda ss: fo.get_series_time_offsets([(t.copy(), H.copy()) for t, H in ss], step)
     try:
